@@ -822,7 +822,7 @@ static H_DEDUPE: [(usize, bool); 4] = [(N_NSZ, false), (N_MX, false), (N_NSZ, fa
 // harnesses
 // --------------------------------------------------------------------------
 
-// @harness props=C21 tier=quick mem=3 t=900
+// @harness props=C21 tier=quick mem=4 t=2400 cbmc="--max-field-sensitivity-array-size 256"
 //   fn="validation::validate,ValidationIssue::is_error"
 //   bound="zones without nodes: soa() in {none, 1 RDATA, 2 RDATA} x ns() in {none, {ns.} with an address} (6 concrete zones, validated one after the other); class in {IN,CH,HS} and glue policy symbolic; unwind 4"
 //   sym="class, policy" stubs="S1,M1"
@@ -851,7 +851,7 @@ fn c21_apex_soa_ns_presence() {
     kani::cover!(e10.missing_ns && !e10.missing_soa && !e10.too_many_soas, "missing NS only");
 }
 
-// @harness props=C21 tier=quick mem=4 t=1200
+// @harness props=C21 tier=quick mem=4 t=2400 cbmc="--max-field-sensitivity-array-size 256"
 //   fn="validation::validate,check_apex_ns_address,class_has_addrs,addrs_found"
 //   bound="zone without nodes, one SOA, ns() = {ns.}; lookup_addrs(ns.) symbolic: Found with any of A/AAAA present, Cname, NxDomain, Referral(d.), WrongZone; class in {IN,CH,HS} and policy symbolic; unwind 4"
 //   sym="class, policy, 1 table entry" stubs="S1,M1"
@@ -881,7 +881,7 @@ fn apex_ns_two(first: Ans) -> (IssueSet, Ans, u16) {
     (run(&f, 2), f.table[N_NSZ][0], class_code)
 }
 
-// @harness props=C21 tier=quick mem=4 t=1200
+// @harness props=C21 tier=quick mem=4 t=2400 cbmc="--max-field-sensitivity-array-size 256"
 //   fn="validation::validate,check_apex_ns_address"
 //   bound="zone without nodes, ns() = {x., ns.}; x. answered WrongZone (out of zone), lookup_addrs(ns.) symbolic (all 5 kinds, A/AAAA presence); class, policy symbolic; unwind 4"
 //   sym="class, policy, 1 table entry" stubs="S1,M1"
@@ -893,7 +893,7 @@ fn c21_apex_ns_two_outside() {
     kani::cover!(e.has(K_NS_ADDR, N_NSZ) && !e.has(K_NS_ADDR, N_OUT) && matches!(t, Ans::NxDomain), "only the in-zone name server is reported");
 }
 
-// @harness props=C21 tier=quick mem=6 t=1800 cbmc="--max-field-sensitivity-array-size 256"
+// @harness props=C21 tier=quick mem=6 t=3600 cbmc="--max-field-sensitivity-array-size 256"
 //   fn="validation::validate,check_apex_ns_address"
 //   bound="zone without nodes, ns() = {x., ns.}; x. answered NxDomain (always an issue in IN/CH), lookup_addrs(ns.) symbolic; class, policy symbolic: up to two MissingNsAddress issues with different names; unwind 4"
 //   sym="class, policy, 1 table entry" stubs="S1,M1"
@@ -906,40 +906,70 @@ fn c21_apex_ns_two_both() {
     kani::cover!(e.is_empty() && cc == 4, "HS: none");
 }
 
-// @harness props=C21 tier=quick mem=6 t=2400 cbmc="--max-field-sensitivity-array-size 256"
-//   fn="validation::validate,scan_node,check_delegation_ns_address,check_glue"
-//   bound="apex in order; node d. {NS ns.d.}; lookup_addrs(ns.d.): each of the 5 kinds in turn (Found with symbolic A/AAAA presence, Cname, NxDomain, Referral(d.), WrongZone) x a symbolic answer to the glue lookup (search_below_cuts: 5 kinds, A/AAAA presence); class and glue policy symbolic; unwind 4"
-//   sym="class, policy, A/AAAA presence, glue-lookup table entry" stubs="S1,M1"
-#[kani::proof]
-#[kani::unwind(4)]
-fn c21_delegation_own_ns() {
+/// Node d. {NS ns.d.}: the plain lookup of ns.d. answers with kind `k`
+/// (concrete), the glue lookup with any answer (symbolic).
+fn delegation_own_ns(k: usize) -> (IssueSet, Ans, Ans, u16, bool) {
     let (class, class_code) = any_class();
     let (policy, wide) = any_policy();
     let mut f = base(class, class_code, policy, wide, &NODES_D_NSD, &H_NSZ_NSD_GLUE);
+    let t0 = kind_ans(k, N_D);
     let t1 = any_ans(N_D);
+    f.table[N_NSD][0] = t0;
     f.table[N_NSD][1] = t1;
-    let mut es = [IssueSet::empty(); NKIND];
-    let mut ts = [Ans::Cname; NKIND];
-    let mut k = 0;
-    while k < NKIND {
-        ts[k] = kind_ans(k, N_D);
-        f.table[N_NSD][0] = ts[k];
-        es[k] = run(&f, 1);
-        k += 1;
-    }
-    let e = &es[3];
+    (run(&f, 1), t0, t1, class_code, wide)
+}
+
+// @harness props=C21 tier=thorough mem=8 t=7200 cbmc="--max-field-sensitivity-array-size 256"
+//   fn="validation::validate,scan_node,check_delegation_ns_address,check_glue"
+//   bound="apex in order; node d. {NS ns.d.}; lookup_addrs(ns.d.) = Referral(d.) (the name server lies inside the delegation), the glue lookup (search_below_cuts) symbolic: 5 kinds, A/AAAA presence; class and glue policy symbolic; unwind 4"
+//   sym="class, policy, glue-lookup table entry" stubs="S1,M1"
+#[kani::proof]
+#[kani::unwind(4)]
+fn c21_delegation_own_ns_referral() {
+    let (e, _t0, t1, class_code, wide) = delegation_own_ns(3);
     kani::cover!(e.has(K_GLUE, N_NSD) && !wide && matches!(t1, Ans::NxDomain), "narrow: missing glue for a name server inside the delegation");
     kani::cover!(e.has(K_GLUE, N_NSD) && wide && matches!(t1, Ans::Found { a: false, aaaa: false }), "wide: glue node without addresses");
     kani::cover!(e.is_empty() && class_code == 1 && matches!(t1, Ans::Found { a: false, aaaa: true }), "IN: AAAA glue suffices");
     kani::cover!(e.has(K_GLUE, N_NSD) && class_code == 3 && matches!(t1, Ans::Found { a: false, aaaa: true }), "CH: AAAA glue does not count");
     kani::cover!(e.is_empty() && class_code == 4 && matches!(t1, Ans::NxDomain), "HS: no glue check");
-    kani::cover!(es[0].has(K_NS_ADDR, N_NSD) && matches!(ts[0], Ans::Found { a: false, .. }), "name server in the zone proper without address");
-    kani::cover!(es[0].is_empty() && class_code == 1 && matches!(ts[0], Ans::Found { a: true, .. }), "name server in the zone proper with address");
-    kani::cover!(es[1].has(K_NS_ADDR, N_NSD) && es[2].has(K_NS_ADDR, N_NSD), "alias / non-existent name server");
-    kani::cover!(es[4].is_empty() && class_code == 1, "out-of-zone name server: nothing needed");
 }
 
-// @harness props=C21 tier=quick mem=6 t=1800 cbmc="--max-field-sensitivity-array-size 256"
+// @harness props=C21 tier=thorough mem=8 t=7200 cbmc="--max-field-sensitivity-array-size 256"
+//   fn="validation::validate,scan_node,check_delegation_ns_address"
+//   bound="apex in order; node d. {NS ns.d.}; lookup_addrs(ns.d.) = Found with symbolic A/AAAA presence (the name server lies in the zone proper); glue lookup symbolic (must not matter); class and policy symbolic; unwind 4"
+//   sym="class, policy, A/AAAA presence, glue-lookup table entry" stubs="S1,M1"
+#[kani::proof]
+#[kani::unwind(4)]
+fn c21_delegation_own_ns_found() {
+    let (e, t0, _t1, class_code, _wide) = delegation_own_ns(0);
+    kani::cover!(e.has(K_NS_ADDR, N_NSD) && matches!(t0, Ans::Found { a: false, .. }), "name server in the zone proper without address");
+    kani::cover!(e.is_empty() && class_code == 1 && matches!(t0, Ans::Found { a: true, .. }), "name server in the zone proper with address");
+}
+
+// @harness props=C21 tier=thorough mem=8 t=7200 cbmc="--max-field-sensitivity-array-size 256"
+//   fn="validation::validate,scan_node,check_delegation_ns_address"
+//   bound="apex in order; node d. {NS ns.d.}; lookup_addrs(ns.d.) = NxDomain (the name server does not exist although it would be in the zone proper); glue lookup symbolic (must not matter); class and policy symbolic; unwind 4"
+//   sym="class, policy, glue-lookup table entry" stubs="S1,M1"
+#[kani::proof]
+#[kani::unwind(4)]
+fn c21_delegation_own_ns_nxdomain() {
+    let (e, _t0, _t1, class_code, _wide) = delegation_own_ns(2);
+    kani::cover!(e.has(K_NS_ADDR, N_NSD) && class_code == 3, "non-existent name server");
+    kani::cover!(e.is_empty() && class_code == 4, "HS: nothing");
+}
+
+// @harness props=C21 tier=thorough mem=8 t=7200 cbmc="--max-field-sensitivity-array-size 256"
+//   fn="validation::validate,scan_node,check_delegation_ns_address"
+//   bound="apex in order; node d. {NS ns.d.}; lookup_addrs(ns.d.) = WrongZone (out-of-zone name server); glue lookup symbolic (must not matter); class and policy symbolic; unwind 4"
+//   sym="class, policy, glue-lookup table entry" stubs="S1,M1"
+#[kani::proof]
+#[kani::unwind(4)]
+fn c21_delegation_own_ns_wrongzone() {
+    let (e, _t0, _t1, class_code, _wide) = delegation_own_ns(4);
+    kani::cover!(e.is_empty() && class_code == 1, "out-of-zone name server: nothing needed");
+}
+
+// @harness props=C21 tier=thorough mem=8 t=7200 cbmc="--max-field-sensitivity-array-size 256"
 //   fn="validation::validate,scan_node,check_delegation_ns_address,check_glue"
 //   bound="apex in order; node d. {NS ns.e.} where ns.e. lies in the SIBLING delegation e. (lookup answers Referral(e.)); the glue lookup (search_below_cuts) symbolic; class and glue policy symbolic: narrow needs no glue, wide does; unwind 4"
 //   sym="class, policy, 1 table entry" stubs="S1,M1"
@@ -958,13 +988,9 @@ fn c21_delegation_sibling_ns() {
     kani::cover!(e.is_empty() && wide && class_code == 1 && matches!(t1, Ans::Found { a: true, .. }), "wide: sibling glue present");
 }
 
-// @harness props=C21 tier=quick mem=6 t=1800 cbmc="--max-field-sensitivity-array-size 256"
-//   fn="validation::validate,scan_node,check_delegation_ns_address,check_glue"
-//   bound="apex in order; node d. {NS ns.d., NS ns.}; ns.d. is below the cut and has no glue (concrete: always MissingGlue in IN/CH), lookup_addrs(ns.): each of the 5 kinds in turn (Found with symbolic A/AAAA presence; a referral names the sibling e., whose glue lookup fails); ns() = {x.} out of zone; class, policy symbolic; unwind 4"
-//   sym="class, policy, A/AAAA presence" stubs="S1,M1"
-#[kani::proof]
-#[kani::unwind(4)]
-fn c21_delegation_two_ns() {
+/// Node d. {NS ns.d., NS ns.}: ns.d. is below the cut without glue
+/// (concrete), the plain lookup of ns. answers with kind `k`.
+fn delegation_two_ns(k: usize) -> (IssueSet, Ans, u16, bool) {
     let (class, class_code) = any_class();
     let (policy, wide) = any_policy();
     let mut f = base(class, class_code, policy, wide, &NODES_D_NSD_NSZ, &H_OUT_NSD_GLUE_NSZ_GLUE);
@@ -972,22 +998,36 @@ fn c21_delegation_two_ns() {
     f.table[N_OUT][0] = Ans::WrongZone;
     f.table[N_NSD][0] = Ans::Referral { child: N_D };
     f.table[N_NSD][1] = Ans::NxDomain;
-    let mut es = [IssueSet::empty(); NKIND];
-    let mut ts = [Ans::Cname; NKIND];
-    let mut k = 0;
-    while k < NKIND {
-        ts[k] = kind_ans(k, N_E);
-        f.table[N_NSZ][0] = ts[k];
-        es[k] = run(&f, 2);
-        k += 1;
-    }
-    kani::cover!(es[2].has(K_GLUE, N_NSD) && es[2].has(K_NS_ADDR, N_NSZ), "missing glue and missing address in one RRset");
-    kani::cover!(es[0].has(K_GLUE, N_NSD) && !es[0].has(K_NS_ADDR, N_NSZ) && matches!(ts[0], Ans::Found { a: true, .. }), "missing glue only");
-    kani::cover!(es[3].has(K_GLUE, N_NSD) && !es[3].has(K_GLUE, N_NSZ) && !wide && class_code == 1, "narrow: second name server in a sibling zone needs no glue");
-    kani::cover!(es[3].has(K_GLUE, N_NSD) && es[3].has(K_GLUE, N_NSZ) && wide, "wide: both need glue");
+    let t = kind_ans(k, N_E);
+    f.table[N_NSZ][0] = t;
+    (run(&f, 2), t, class_code, wide)
 }
 
-// @harness props=C21 tier=quick mem=4 t=1200
+// @harness props=C21 tier=thorough mem=8 t=10800 cbmc="--max-field-sensitivity-array-size 256"
+//   fn="validation::validate,scan_node,check_delegation_ns_address,check_glue"
+//   bound="ns() = {x.} disowned; node d. {NS ns.d., NS ns.}; ns.d. is below the cut and has no glue (always MissingGlue in IN/CH), ns. does not exist (always MissingNsAddress in IN/CH): two different named issues from one RRset; class, policy symbolic; unwind 4"
+//   sym="class, policy" stubs="S1,M1"
+#[kani::proof]
+#[kani::unwind(4)]
+fn c21_delegation_two_ns_nxdomain() {
+    let (e, _t, class_code, _wide) = delegation_two_ns(2);
+    kani::cover!(e.has(K_GLUE, N_NSD) && e.has(K_NS_ADDR, N_NSZ) && class_code == 1, "missing glue and missing address in one RRset");
+    kani::cover!(e.is_empty() && class_code == 4, "HS: nothing");
+}
+
+// @harness props=C21 tier=thorough mem=8 t=10800 cbmc="--max-field-sensitivity-array-size 256"
+//   fn="validation::validate,scan_node,check_delegation_ns_address,check_glue"
+//   bound="ns() = {x.} disowned; node d. {NS ns.d., NS ns.}; ns.d. is below the cut d. without glue, ns. is below the SIBLING cut e. without glue: narrow policy wants glue for the first only, wide for both; class, policy symbolic; unwind 4"
+//   sym="class, policy" stubs="S1,M1"
+#[kani::proof]
+#[kani::unwind(4)]
+fn c21_delegation_two_ns_sibling() {
+    let (e, _t, class_code, wide) = delegation_two_ns(3);
+    kani::cover!(e.has(K_GLUE, N_NSD) && !e.has(K_GLUE, N_NSZ) && !wide && class_code == 1, "narrow: second name server in a sibling zone needs no glue");
+    kani::cover!(e.has(K_GLUE, N_NSD) && e.has(K_GLUE, N_NSZ) && wide, "wide: both need glue");
+}
+
+// @harness props=C21 tier=quick mem=4 t=2400 cbmc="--max-field-sensitivity-array-size 256"
 //   fn="validation::validate,scan_node"
 //   bound="apex in order; node h. with, in turn, {CNAME x1}, {CNAME x2}, {CNAME x1, A}, {TXT, CNAME x2}, {A, TXT} (5 concrete zones); class, policy symbolic; unwind 4"
 //   sym="class, policy" stubs="S1,M1"
@@ -1008,34 +1048,33 @@ fn c21_cname_nodes() {
     kani::cover!(e5.is_empty(), "A + TXT is fine");
 }
 
-// @harness props=C21 tier=quick mem=6 t=1800 cbmc="--max-field-sensitivity-array-size 256"
-//   fn="validation::validate,scan_node,check_delegation_ns_address"
-//   bound="one SOA, ns() = {x.} (out of zone); node *. {NS ns.}; lookup_addrs(ns.): each of the 5 kinds in turn (Found with symbolic A/AAAA presence; a referral names d., whose glue lookup fails); class, policy symbolic: NsAtWildcard (warning) always, plus the delegation checks for the target; unwind 4"
-//   sym="class, policy, A/AAAA presence" stubs="S1,M1"
-#[kani::proof]
-#[kani::unwind(4)]
-fn c21_wildcard_ns() {
+/// ns() = {x.} disowned; node *. {NS ns.}; the plain lookup of ns. answers
+/// with kind `k`.
+fn wildcard_ns(k: usize) -> (IssueSet, Ans, u16, bool) {
     let (class, class_code) = any_class();
     let (policy, wide) = any_policy();
     let mut f = base(class, class_code, policy, wide, &NODES_WILD_NS, &H_OUT_NSZ_GLUE);
     f.ns = Some(&RS_NS_OUT);
     f.table[N_OUT][0] = Ans::WrongZone;
-    let mut es = [IssueSet::empty(); NKIND];
-    let mut ts = [Ans::Cname; NKIND];
-    let mut k = 0;
-    while k < NKIND {
-        ts[k] = kind_ans(k, N_D);
-        f.table[N_NSZ][0] = ts[k];
-        es[k] = run(&f, 2);
-        k += 1;
-    }
-    kani::cover!(es[4].has(K_NS_WILD, N_WILD) && class_code == 4, "NS at wildcard is reported in every class");
-    kani::cover!(es[2].has(K_NS_WILD, N_WILD) && es[2].has(K_NS_ADDR, N_NSZ), "warning and error together");
-    kani::cover!(es[0].has(K_NS_WILD, N_WILD) && !es[0].has(K_NS_ADDR, N_NSZ) && class_code == 1 && matches!(ts[0], Ans::Found { a: true, .. }), "warning alone");
-    kani::cover!(es[3].has(K_NS_WILD, N_WILD) && es[3].has(K_GLUE, N_NSZ) && wide, "wide: glue for a name server below another cut");
+    let t = kind_ans(k, N_D);
+    f.table[N_NSZ][0] = t;
+    (run(&f, 2), t, class_code, wide)
 }
 
-// @harness props=C21 tier=quick mem=4 t=1200
+// @harness props=C21 tier=thorough mem=8 t=7200 cbmc="--max-field-sensitivity-array-size 256"
+//   fn="validation::validate,scan_node,check_delegation_ns_address"
+//   bound="node *. {NS ns.}; lookup_addrs(ns.) = Found with symbolic A/AAAA presence; class, policy symbolic: NsAtWildcard (warning) in every class, plus MissingNsAddress when there is no address; unwind 4"
+//   sym="class, policy, A/AAAA presence" stubs="S1,M1"
+#[kani::proof]
+#[kani::unwind(4)]
+fn c21_wildcard_ns_found() {
+    let (e, t, class_code, _wide) = wildcard_ns(0);
+    kani::cover!(e.has(K_NS_WILD, N_WILD) && class_code == 4, "NS at wildcard is reported in every class");
+    kani::cover!(e.has(K_NS_WILD, N_WILD) && e.has(K_NS_ADDR, N_NSZ), "warning and error together");
+    kani::cover!(e.has(K_NS_WILD, N_WILD) && !e.has(K_NS_ADDR, N_NSZ) && class_code == 1 && matches!(t, Ans::Found { a: true, .. }), "warning alone");
+}
+
+// @harness props=C21 tier=thorough mem=8 t=10800 cbmc="--max-field-sensitivity-array-size 256"
 //   fn="validation::validate,scan_node,check_mx_address"
 //   bound="apex in order; apex node {MX mx.}; lookup_addrs(mx.) symbolic; class, policy symbolic; unwind 4"
 //   sym="class, policy, 1 table entry" stubs="S1,M1"
@@ -1055,7 +1094,7 @@ fn c21_mx_one() {
     kani::cover!(e.is_empty() && class_code == 4 && matches!(t, Ans::NxDomain), "HS: no address checks");
 }
 
-// @harness props=C21 tier=quick mem=6 t=1800 cbmc="--max-field-sensitivity-array-size 256"
+// @harness props=C21 tier=thorough mem=8 t=10800 cbmc="--max-field-sensitivity-array-size 256"
 //   fn="validation::validate,scan_node,check_mx_address"
 //   bound="apex in order; node h. {MX ns., MX mx.}; ns. exists without any address (concrete; it is also the apex name server: MissingNsAddress and MissingMxAddress for the same name are different issues), lookup_addrs(mx.) symbolic; class, policy symbolic; unwind 4"
 //   sym="class, policy, 1 table entry" stubs="S1,M1"
@@ -1073,7 +1112,7 @@ fn c21_mx_two() {
     kani::cover!(e.is_empty() && class_code == 4, "HS: nothing");
 }
 
-// @harness props=C21 tier=quick mem=6 t=1800 cbmc="--max-field-sensitivity-array-size 256"
+// @harness props=C21 tier=thorough mem=8 t=10800 cbmc="--max-field-sensitivity-array-size 256"
 //   fn="validation::validate,scan_node,check_apex_ns_address,check_delegation_ns_address,check_glue,check_mx_address"
 //   bound="a zone with nothing wrong in class IN (3 nodes: apex {NS ns., MX mx., TXT}, d. {NS ns.d.} with glue, *. {A, TXT}); ns. has A, mx. has only AAAA, glue is an A record; class and policy symbolic (CH: the AAAA-only exchanger is a warning; HS: nothing); unwind 4"
 //   sym="class, policy" stubs="S1,M1"
@@ -1113,7 +1152,7 @@ fn c21_many_issues() {
     );
 }
 
-// @harness props=C21 tier=quick mem=6 t=1800 cbmc="--max-field-sensitivity-array-size 256"
+// @harness props=C21 tier=thorough mem=8 t=10800 cbmc="--max-field-sensitivity-array-size 256"
 //   fn="validation::validate,scan_node,check_apex_ns_address,check_delegation_ns_address,check_mx_address"
 //   bound="the same issue arising twice is reported once (concrete): ns. does not exist and is the name server of the apex (ns()) and of d.; mx. does not exist and is the exchanger of the apex node and of h. (nodes apex {MX mx.}, d. {NS ns.}, h. {MX mx.}); class IN/CH symbolic, policy symbolic; unwind 4"
 //   sym="class in {IN, CH}, policy" stubs="S1,M1"
@@ -1130,7 +1169,7 @@ fn c21_same_issue_once() {
     kani::cover!(e.has(K_NS_ADDR, N_NSZ) && e.has(K_MX_ADDR, N_MX), "two issues from four findings");
 }
 
-// @harness props=C21 tier=quick mem=4 t=1200
+// @harness props=C21 tier=quick mem=4 t=2400 cbmc="--max-field-sensitivity-array-size 256"
 //   fn="Name::try_from_uncompressed_all,RdataSetOwned::from,RdataSetOwned::insert,RdataSet::iter"
 //   bound="harness self-check: every static Name view equals the Name the public parser builds from the same wire form (label count, wire, every label), every static RdataSet view has the octets RdataSetOwned builds from the same RDATA; unwind 50 (all loops concrete)"
 //   sym="none" stubs=""
